@@ -7,6 +7,7 @@
 #include "enccfg.h"
 #include "common.h"
 #include "alloc.h"
+#include "ref/xzparse.h"
 
 using namespace vg;
 
@@ -15,7 +16,29 @@ using namespace vg;
 static va::Alloc *g_alp;
 static const lzma_allocator *AL() { if (!g_alp) { g_alp = new va::Alloc(); g_alp->cap = 96u << 20; g_alp->poison = false; } return &g_alp->a; }
 
-static void compare(const char *kind, const drv::Result &ref, const drv::Result &got, bool bytes_unspecified_on_error, bool lzma1_eopm_candidate) {
+// Recorded finding C06:error-position-after-declared-uncompressed-size.  block_decoder.c rejects a Block whose declared Uncompressed
+// Size has been delivered while the filter chain has not ended with "uncomp_done && *in_pos < in_size", i.e. depending on whether the
+// *caller's buffer* still holds unread bytes: with everything in one buffer the error comes as soon as the output is complete, with
+// small pieces the decoder first consumes further LZMA2 header bytes.  Same status, same output, different total_in.  Attributed
+// only if: first Stream of an .xz file, both runs LZMA_DATA_ERROR with equal output, both positions inside the compressed data of
+// one Block whose header declares an Uncompressed Size, and exactly that much of the Block has been delivered.
+static bool error_after_declared_uncompressed_size(const std::vector<uint8_t> &d, uint64_t tin_a, uint64_t tin_b, size_t out_len) {
+	if (d.size() < 24 || d[0] != 0xFD) return false;
+	const unsigned csize = ref::check_sizes[d[7] & 15];
+	const uint64_t lo = std::min(tin_a, tin_b), hi = std::max(tin_a, tin_b);
+	size_t off = 12; uint64_t produced = 0;
+	for (unsigned i = 0; i < 64 && off < d.size() && d[off] != 0; ++i) {
+		ref::BlockLayout b; ref::XzResult R;
+		if (!ref::parse_block_header(d.data(), d.size(), off, b, R)) return false;
+		const size_t data_off = off + b.hdr_size; const uint64_t end = b.has_comp ? data_off + b.comp_field : d.size();
+		if (lo >= data_off && hi <= end) return b.has_unc && out_len == produced + b.unc_field;
+		if (!b.has_comp || !b.has_unc) return false;
+		produced += b.unc_field; off = (size_t)(data_off + b.comp_field + ((4 - (b.comp_field & 3)) & 3) + csize);
+	}
+	return false;
+}
+
+static void compare(const char *kind, const drv::Result &ref, const drv::Result &got, bool bytes_unspecified_on_error, bool lzma1_eopm_candidate, const std::vector<uint8_t> *xz_file = nullptr) {
 	if (ref.capped || got.capped) { count("inconclusive_capped"); return; }
 	if (ref.ret == LZMA_MEM_ERROR || got.ret == LZMA_MEM_ERROR) { count("environment_alloc_cap"); return; }
 	if (got.call_bound) violation("C04:call-bound", "%s: sliced run exceeded the call bound (calls=%zu)", kind, got.calls);
@@ -26,6 +49,8 @@ static void compare(const char *kind, const drv::Result &ref, const drv::Result 
 	if (ok) return;
 	const char *sig = "C06:slicing";
 	if (lzma1_eopm_candidate && ref.ret == LZMA_STREAM_END && got.ret == LZMA_DATA_ERROR && same_bytes) sig = "C06:lzma1-eopm-split";
+	if (xz_file && ref.ret == LZMA_DATA_ERROR && got.ret == LZMA_DATA_ERROR && same_bytes && ref.info == got.info && ref.total_in != got.total_in
+			&& error_after_declared_uncompressed_size(*xz_file, ref.total_in, got.total_in, ref.out.size())) sig = "C06:error-position-after-declared-uncompressed-size";
 	if (known_finding(sig)) return;
 	violation(sig, "%s: one-shot {ret=%s total_in=%llu out=%zu} vs sliced {ret=%s total_in=%llu out=%zu} bytes_equal=%d info_equal=%d",
 		kind, drv::retname(ref.ret), (unsigned long long)ref.total_in, ref.out.size(),
@@ -78,7 +103,7 @@ static void mode_testfile(Case &c) {
 	if (init_dec(&s2, k, flags) != LZMA_OK) harness_bug("decoder init failed");
 	drv::Result got = drv::run(&s2, data.data(), data.size(), sch, o); lzma_end(&s2);
 	bool cand = (k == DK_ALONE || k == DK_AUTO) && al;
-	compare(dk_names[k], ref, got, bcj, cand);
+	compare(dk_names[k], ref, got, bcj, cand, (k == DK_STREAM || k == DK_AUTO) ? &data : nullptr);
 	count(std::string("dec_") + dk_names[k]); count(ref.ret == LZMA_STREAM_END ? "valid_input" : "invalid_input");
 	if (sched_nontrivial(sch, data.size(), ref.out.size()) && ref.total_in > 6) nontrivial(hcomb(hcomb(hash_bytes(data.data(), data.size()), k * 131 + flags), sch.hash()));
 }
@@ -110,7 +135,7 @@ static void mode_generated(Case &c) {
 	drv::Result ref = ec::decode_matching(g, data, drv::Schedule(), plain_len, AL());
 	drv::Result got = ec::decode_matching(g, data, sch, plain_len, AL());
 	bool cand = g.entry == ec::E_ALONE || g.last_id() == LZMA_FILTER_LZMA1EXT;
-	compare(ec::entry_names[g.entry], ref, got, g.has_bcj, cand);
+	compare(ec::entry_names[g.entry], ref, got, g.has_bcj, cand, ec::is_xz(g.entry) ? &data : nullptr);
 	if (mut == "none" && ref.ret != LZMA_MEM_ERROR) {
 		if (ref.ret != LZMA_STREAM_END && !ref.capped) violation("C01:roundtrip-status", "valid stream rejected: %s", drv::retname(ref.ret));
 		if (!ref.capped && (ref.out.size() != plain_len || (plain_len && memcmp(ref.out.data(), in.data(), plain_len)))) violation("C01:roundtrip-bytes", "decoded bytes differ from input");
